@@ -120,6 +120,10 @@ func (g *Global) LLString() string {
 	fmt.Fprintf(buf, "%s =", g.Ident())
 	if g.Linkage != enum.LinkageNone {
 		fmt.Fprintf(buf, " %s", g.Linkage)
+	} else if g.Init == nil {
+		// A global declaration (no initializer) is external; the grammar has
+		// no declaration without linkage.
+		fmt.Fprintf(buf, " %s", enum.LinkageExternal)
 	}
 	if g.Preemption != enum.PreemptionNone {
 		fmt.Fprintf(buf, " %s", g.Preemption)
